@@ -7,7 +7,7 @@
 From PV Require Import Model.Precision Model.Segment Proofs.PrecisionP.
 From Coq Require Reals.
 From Flocq Require Core.
-From PV Require Proofs.RoundFloatP.
+From PV Require Proofs.RoundFloatP Proofs.RoundFloatLinkP.
 
 Theorem C13_nearest_within_half_unit : forall n num den, 0 < den ->
   2 * Z.abs (round_units n num den * den - num * 10 ^ n) <= den.
@@ -72,6 +72,23 @@ Proof. exact RoundFloatP.binary64_idempotent. Qed.
 Theorem C13_binary64_monotone : forall P x y : R, 0 < P -> x <= y ->
   RoundFloatP.rfloat RoundFloatP.rnd64 P x <= RoundFloatP.rfloat RoundFloatP.rnd64 P y.
 Proof. exact RoundFloatP.binary64_monotone. Qed.
+(* the link: the primitive-float model [Model.Precision.roundF] - the one the correspondence evaluates and compares bit
+   for bit with the code on every run - computes, whenever nothing overflows, exactly the rounded real expression the
+   theorems above are about ([FR] = the real value of a primitive float, [fin] = finite) ... *)
+Theorem C13_primitive_float_model_is_the_rounded_real_expression : forall P x : PrimFloat.float,
+  RoundFloatLinkP.fin x -> RoundFloatLinkP.fin P -> 0 < RoundFloatLinkP.FR P -> RoundFloatLinkP.FR P <= bpow radix2 900 ->
+  Rabs (RoundFloatLinkP.FR x / RoundFloatLinkP.FR P) <= bpow radix2 60 ->
+  RoundFloatLinkP.FR (roundF P x) = RoundFloatP.rfloat RoundFloatP.rnd64 (RoundFloatLinkP.FR P) (RoundFloatLinkP.FR x)
+  /\ RoundFloatLinkP.fin (roundF P x).
+Proof. exact RoundFloatLinkP.roundF_is_rfloat. Qed.
+(* ... so the bit-exact model itself is within half a unit of the requested value *)
+Theorem C13_primitive_float_model_within_half_unit : forall P x : PrimFloat.float,
+  RoundFloatLinkP.fin x -> RoundFloatLinkP.fin P -> 0 < RoundFloatLinkP.FR P -> RoundFloatLinkP.FR P <= bpow radix2 900 ->
+  Rabs (RoundFloatLinkP.FR x / RoundFloatLinkP.FR P) <= bpow radix2 60 ->
+  Rabs (RoundFloatLinkP.FR (roundF P x) - RoundFloatLinkP.FR x)
+  <= RoundFloatLinkP.FR P / 2 + 8 * RoundFloatP.u64 * (Rabs (RoundFloatLinkP.FR x) + RoundFloatLinkP.FR P)
+     + 8 * RoundFloatP.eta64 * (RoundFloatLinkP.FR P + 1).
+Proof. exact RoundFloatLinkP.roundF_within_half_unit. Qed.
 End Binary64.
 
 Example C13_nonvacuous :
@@ -91,3 +108,5 @@ Print Assumptions Binary64.C13_rounded_arithmetic_within_half_unit.
 Print Assumptions Binary64.C13_binary64_on_grid_bounds_unchanged.
 Print Assumptions Binary64.C13_binary64_rounding_twice_is_rounding_once.
 Print Assumptions Binary64.C13_binary64_monotone.
+Print Assumptions Binary64.C13_primitive_float_model_is_the_rounded_real_expression.
+Print Assumptions Binary64.C13_primitive_float_model_within_half_unit.
